@@ -375,8 +375,14 @@ def render(fn, twin=False, subst=None, ann_params=None, decl=None):
                 lines.append("%s%s = %s" % (ind, tg, s[2]))
                 lines.extend(post_bind([n for t in s[1] for n in target_names(t)], ind))
             elif k == "walrus":
-                lines.append("%s%s = (%s := %s) + 1" % (ind, s[1], s[2], s[3]))
-                lines.extend(post_bind([s[2], s[1]], ind))
+                # the inner binding happens even if the rest of the statement raises: log it in place
+                inner = s[3]
+                if subst and s[2] == subst[0]:
+                    inner = "%s(%r, %s, LATEST)" % (subst[1], s[2], inner)
+                if twin:
+                    inner = "BL(%r, %s)" % (s[2], inner)
+                lines.append("%s%s = (%s := %s) + 1" % (ind, s[1], s[2], inner))
+                lines.extend(post_bind([s[1]], ind))
             elif k == "aug":
                 lines.append("%s%s %s= %s" % (ind, target_text(s[1]), s[2], s[3]))
                 lines.extend(post_bind(target_names(s[1]), ind))
